@@ -58,7 +58,8 @@ def _ir(draw):
             # become part of the announced value)
             extra = draw(st.integers(0, 25))
             off = draw(st.integers(0, len(domain.WORDS) - 1))
-            words = [domain.WORDS[(off + 3 * j) % len(domain.WORDS)] for j in range(extra)]  # one draw, many words
+            words = [domain.WORDS[(off + 3 * j) % len(domain.WORDS)] if j % 3 else domain.HYPHENATED[(off + j) % len(domain.HYPHENATED)]
+                     for j in range(extra)]  # one draw, many words (every third one a hyphenated compound)
             p["doc"] = " ".join([p["doc"].rstrip(".")] + words + [c05.UNIQ[i % len(c05.UNIQ)]])
     return ir
 
